@@ -373,11 +373,11 @@ def check_net(ctx, c):
     if fault == "undeclared-substrate":
         missing = sub_used[c["pick"] % len(sub_used)]
         must_raise("RDNetwork without species %r used as reactant" % missing, S.RDNetwork,
-                   species([lb for lb in labels if lb != missing]) or [S.Species("zz")], [r])
+                   species([lb for lb in labels if lb != missing]) or [S.Species(missing + "_other")], [r])
     elif fault == "undeclared-product":
         missing = prod_used[c["pick"] % len(prod_used)]
         must_raise("RDNetwork without species %r used as product" % missing, S.RDNetwork,
-                   species([lb for lb in labels if lb != missing]) or [S.Species("zz")], [r])
+                   species([lb for lb in labels if lb != missing]) or [S.Species(missing + "_other")], [r])
     elif fault == "dup-species":
         dup = labels[c["pick"] % len(labels)]
         must_raise("RDNetwork with species label %r twice" % dup, S.RDNetwork, species(labels + [dup]), [r])
